@@ -45,6 +45,16 @@ theorem dropped_fault_swallowed (pre post : List Bool) (hpre : pre.all id = true
 theorem sink_sites_propagate : (Facts.sinkSiteList.all Site.propagates) = true := by decide
 theorem sink_calls_propagate : (Facts.sinkPropList.all Site.propagates) = true := by decide
 
+/-- the inventory still sees the sink writes of the writer path (magic, page header, page payload,
+footer, footer length, closing magic) and the calls that lead to them: it has not silently gone empty -/
+theorem sink_inventory_covers : 7 ≤ Facts.sinkSiteList.length ∧ 10 ≤ Facts.sinkPropList.length ∧
+    (Facts.sinkSiteList.any fun s => s.fn == "Metadata.Footer") = true ∧
+    (Facts.sinkSiteList.any fun s => s.fn == "Metadata.WritePageHeader") = true ∧
+    (Facts.sinkSiteList.any fun s => s.fn == "ParquetWriter.Close") = true ∧
+    (Facts.sinkSiteList.any fun s => s.fn == "begin") = true ∧
+    (Facts.sinkSiteList.any fun s => s.fn == "RequiredField.DoWrite") = true ∧
+    (Facts.sinkSiteList.any fun s => s.fn == "OptionalField.DoWrite") = true := by decide
+
 /-- index of the API call during which the `k`-th sink write (1-based) happens -/
 def failingCall : List (List Bytes) → Nat → Option Nat
   | [], _ => none
